@@ -354,3 +354,122 @@ def rf30(run):
     run.ob(rule, ('epilogue-anchor',), ok)
     if not ok:
         run.analysis_broken(rule, 'target_make_prolog_epilog: search for the return instruction not recognised')
+
+
+# ---------------------------------------------------------------------------------------------
+# RF33: control-flow edges of indirect jumps cover every address-taken label (build_func_cfg)
+# ---------------------------------------------------------------------------------------------
+
+def _for_parts(x):
+    c = x['c']
+    return (c[0], c[1], c[2], c[3]) if len(c) >= 4 else (None, None, None, None)
+
+
+def rf33(run):
+    rule = 'RF33'
+    run.rule(rule, 'build_func_cfg: every LADDR label and both labels of every lref item are collected as address-taken; every JMPI is '
+                   'collected; the loops that connect each JMPI block to each address-taken label and that mark those labels reachable '
+                   'run over the whole index range [0, length) of the collected vectors, and an iteration skips create_edge only for a '
+                   'label equal to the previously connected one')
+    gen = run.tu('gen')
+    f = gen.func('build_func_cfg')
+    run.functions_analysed.add(('gen', f.name))
+    cfg = f.cfg
+    from rf_proto import dominating_conditions
+    LAB, JMP = 'gen_ctx->temp_insns2', 'gen_ctx->temp_insns'
+    pushes = {LAB: [], JMP: []}
+    for x in f.walk():
+        if x['k'] == 'CallExpr' and (x.get('callee') or '').startswith('VARR_') and x['callee'].endswith('push'):
+            a = [F.src(F.strip(z)) for z in F.call_args(x)]
+            if a and a[0] in pushes:
+                pushes[a[0]].append((a[1], x))
+    # (a) collection of address-taken labels
+    got = {e for e, _ in pushes[LAB]}
+    for want, why in (('insn->ops[1].u.label', 'the label operand of LADDR'), ('lref->label', 'the label of an lref data item'),
+                      ('lref->label2', 'the base label of an lref data item')):
+        ok = want in got
+        run.ob(rule, ('collect', want), ok, {'pushed to the address-taken vector': sorted(got), 'required': want})
+        if not ok:
+            run.violation(rule, f, 'collection of %s' % want, 'build_func_cfg does not record %s (%s) as a possible target of indirect jumps'
+                          % (want, why), line=f.line)
+    for e, x in pushes[LAB] + pushes[JMP]:
+        b = cfg.block_of(x)
+        conds = dominating_conditions(cfg, b, selective=True) if b is not None else None
+        if e == 'insn->ops[1].u.label':
+            exp = [('(insn->code == MIR_LADDR)', True)]
+        elif e == 'insn' and x in [y for _, y in pushes[JMP]]:
+            exp = [('(insn->code == MIR_LADDR)', False), ('(insn->code == MIR_JMPI)', True)]
+        elif e == 'lref->label2':
+            exp = [('(lref->label2 != 0)', True)]
+        else:
+            exp = []
+        ok = conds is not None and sorted(conds) == sorted(exp)
+        run.ob(rule, ('collect-cond', e, x['l']), ok, {'push': F.src(x)[:70], 'under': conds, 'expected': exp})
+        if not ok:
+            run.violation(rule, f, 'condition of %s' % F.src(x)[:50], 'the collection %s happens under %s; it must happen exactly under %s, '
+                          'otherwise some indirect-jump targets or sources get no control-flow edge' % (F.src(x)[:50], conds, exp), line=x['l'])
+    if not pushes[JMP]:
+        raise F.AnalysisBroken('build_func_cfg: JMPI collection not found')
+    # (b) full-range loops
+    loops = []
+    for x in f.walk():
+        if x['k'] != 'ForStmt':
+            continue
+        init, cond, inc, body = _for_parts(x)
+        if cond is None:
+            continue
+        ct = F.src(F.strip(cond))
+        vec = LAB if ('length(%s)' % LAB) in ct else (JMP if ('length(%s)' % JMP) in ct else None)
+        if vec is None:
+            continue
+        loops.append((x, vec))
+        c = F.strip(cond)
+        iv = F.src(F.strip(c['c'][0])) if c['k'] == 'BinaryOperator' else None
+        i0 = F.strip(init) if init is not None else None
+        init_ok = i0 is not None and i0['k'] == 'BinaryOperator' and i0['op'] == '=' and F.src(F.strip(i0['c'][0])) == iv and F.const_value(i0['c'][1]) == 0
+        if i0 is not None and i0['k'] == 'DeclStmt':
+            init_ok = len(i0['decls']) == 1 and i0['decls'][0]['n'] == iv and i0['decls'][0].get('init') is not None and F.const_value(i0['decls'][0]['init']) == 0
+        cond_ok = c['k'] == 'BinaryOperator' and c['op'] == '<' and F.src(F.strip(c['c'][1])).endswith('length(%s)' % vec)
+        inc_ok = inc is not None and F.strip(inc)['k'] == 'UnaryOperator' and F.strip(inc)['op'] == '++' and F.src(F.strip(F.strip(inc)['c'][0])) == iv
+        body_assigns = [y for y in F.walk(body) if y['k'] in ('BinaryOperator', 'CompoundAssignOperator', 'UnaryOperator')
+                        and y.get('op') in ('=', '+=', '-=', '++', '--') and F.src(F.strip(y['c'][0])) == iv]
+        ok = init_ok and cond_ok and inc_ok and not body_assigns
+        run.ob(rule, ('full-range', x['l']), ok, {'loop': 'for (%s; %s; %s)' % (F.src(init)[:30] if init else '', ct[:60], F.src(inc)[:10] if inc else ''),
+                                                 'vector': vec, 'starts at 0': init_ok, 'bound is the length': cond_ok, 'unit step': inc_ok and not body_assigns})
+        if not ok:
+            run.violation(rule, f, 'loop over %s at line %d' % (vec, x['l']),
+                          'the loop over the collected %s does not visit the whole range [0, length): %s'
+                          % ('address-taken labels' if vec == LAB else 'indirect jumps',
+                             'it starts at %s' % (F.src(init)[:30] if init else '?') if not init_ok else 'bound or step differ from i < length; i++'), line=x['l'])
+    if len(loops) < 3:
+        raise F.AnalysisBroken('build_func_cfg: expected the JMPI loop, the label loop and the reachable_p loop, found %d' % len(loops))
+    # (c) skipping create_edge only for a repeated label
+    inner = [x for x, vec in loops if vec == LAB and any(y['k'] == 'CallExpr' and y.get('callee') == 'create_edge' for y in F.walk(x))]
+    if len(inner) != 1:
+        raise F.AnalysisBroken('build_func_cfg: inner edge-creating loop over the label vector not found')
+    body = _for_parts(inner[0])[3]
+    ceb = blocks_with(cfg, lambda z: z['k'] == 'CallExpr' and z.get('callee') == 'create_edge' and any(z is w for w in F.walk(body)))
+    incb = cfg.block_of(_for_parts(inner[0])[2])
+    first = None
+    for st in F.kids(body):
+        first = cfg.block_of(st) if first is None else first
+    if incb is None or first is None or not ceb:
+        raise F.AnalysisBroken('build_func_cfg: blocks of the inner loop not located')
+    # edges into the step that bypass create_edge
+    skipping = []
+    seen = cfg.reachable_from(first, avoid=lambda q: q in ceb or q == incb)
+    for b in seen:
+        if incb in cfg.live_succs(b):
+            skipping.append(b)
+    asg = [F.src(F.strip(y['c'][0])) for y in F.walk(body) if y['k'] == 'BinaryOperator' and y['op'] == '=' and F.src(F.strip(y['c'][1])) == 'insn2']
+    for b in skipping:
+        conds = dominating_conditions(cfg, b)
+        B = cfg.blocks[b]
+        if B.cond is not None and len(B.succs) == 2:
+            conds = conds + [(F.src(F.strip(B.cond)), B.succs[0] == incb)]
+        dup = any(t and any(c.replace(' ', '') == '(insn2==%s)' % v for v in asg) for c, t in conds)
+        run.ob(rule, ('skip', b), dup, {'iteration can skip create_edge under': conds, 'previous-label variable': asg})
+        if not dup:
+            run.violation(rule, f, 'skipped edge', 'an iteration of the JMPI-to-label loop can skip create_edge under %s, which is not the '
+                          '"same label as the previous one" test' % conds, line=inner[0]['l'])
+    run.min_instances(rule, 8)
